@@ -5,7 +5,9 @@ import (
 	"context"
 	"errors"
 	"fmt"
+	"io"
 	"net"
+	"os"
 	"sort"
 	"strings"
 	"sync/atomic"
@@ -34,13 +36,18 @@ type ReqBehav struct {
 	// Notify: before replying the server sends a message of its own, a server-originated request (KMIP's Notify/Put
 	// direction), which a client ignores
 	Notify bool `json:"notify,omitempty"`
+	// NotifyBad: the unsolicited message is well framed but not decodable (a top-level tag the library does not know)
+	NotifyBad bool `json:"notify_bad,omitempty"`
 }
 
 // ConnSc configures the client's i-th dial.
 type ConnSc struct {
-	DialFail bool             `json:"dial_fail,omitempty"`
-	Plan     []simnet.FaultAt `json:"plan,omitempty"`
-	Rates    map[string]int   `json:"rates,omitempty"`
+	DialFail bool `json:"dial_fail,omitempty"`
+	// DialErr: what a failing dial returns: "" connection refused | "eof" an error wrapping io.EOF (a TLS dial whose
+	// server goes away during the handshake) | "closed" wrapping io.ErrClosedPipe | "timeout" a net timeout error
+	DialErr string           `json:"dial_err,omitempty"`
+	Plan    []simnet.FaultAt `json:"plan,omitempty"`
+	Rates   map[string]int   `json:"rates,omitempty"`
 }
 
 type CallSc struct {
@@ -157,6 +164,14 @@ func (w *clientWorld) dialer(ctx context.Context) (net.Conn, error) {
 	}
 	if cs.DialFail && !w.quiet {
 		w.s.Fault("dial-fail")
+		switch cs.DialErr {
+		case "eof":
+			return nil, fmt.Errorf("dial sim: handshake: %w", io.EOF)
+		case "closed":
+			return nil, fmt.Errorf("dial sim: handshake: %w", io.ErrClosedPipe)
+		case "timeout":
+			return nil, &net.OpError{Op: "dial", Net: "sim", Err: os.ErrDeadlineExceeded}
+		}
 		return nil, simnet.ErrRefused
 	}
 	cep := simnet.EP{Chunk: w.sc.Chunk, DataEOF: w.sc.DataEOF, Plan: cs.Plan, Rates: cs.Rates, Capacity: w.sc.Capacity}
@@ -222,7 +237,12 @@ func (w *clientWorld) peerLoop(c *simnet.Conn, connIdx int) {
 			ts := time.Unix(1700000000, 0).UTC()
 			note := &kmip.RequestMessage{Header: kmip.RequestHeader{ProtocolVersion: req.Header.ProtocolVersion, TimeStamp: &ts, BatchCount: 1},
 				BatchItem: []kmip.RequestBatchItem{{Operation: kmip.OperationActivate, RequestPayload: &payloads.ActivateRequestPayload{UniqueIdentifier: "server-originated"}}}}
-			if _, err := c.Write(ttlv.MarshalTTLV(note)); err != nil {
+			frame := ttlv.MarshalTTLV(note)
+			if b.NotifyBad {
+				w.s.Fault("server-undecodable-message")
+				frame = ttlv.MarshalTTLV(ttlv.Value{Tag: 0x420001, Value: ttlv.Struct{{Tag: 0x420069, Value: int32(1)}}})
+			}
+			if _, err := c.Write(frame); err != nil {
 				_ = c.Close()
 				return
 			}
